@@ -586,16 +586,26 @@ Fixpoint run_gen (fuel : nat) (cur : prog) (p : prog) (L : lst) (r : rctx)
                 match get_or [] (assoc name (r_extends r)) with
                 | [] => bindL (run_gen f cur body L r) k
                 | b0 :: _ =>
-                    (* context.copy(block_scope=True): a new context over the
-                       current scope, sharing only the block stacks; tags disabled
-                       here stay disabled (disabled_tags or self.disabled_tags) *)
-                    let sub := set_extends
-                                 (fresh_ctx (FMap [] :: scope r) (r_root r) (r_disabled r) (r_out r))
-                                 (r_extends r) in
+                    (* context.copy(block_scope=True): a block is part of the page it is
+                       rendered in.  The copy has its own (empty) locals over the current
+                       scope, and SHARES the tag namespace (cycles, stop indexes, macros,
+                       block stacks) and the counters with the context it is copied from;
+                       tags disabled here stay disabled.  The shared counters are the last
+                       map of the copy's own scope, so the frame list it looks through
+                       first is the current scope without its counters map. *)
+                    let sub :=
+                      {| r_locals := [];
+                         r_globals := FMap [] :: FMap (r_locals r) :: r_globals r ++ [FBuiltin];
+                         r_root := r_root r; r_counters := r_counters r; r_cycles := r_cycles r;
+                         r_stop := r_stop r; r_macros := r_macros r; r_extends := r_extends r;
+                         r_disabled := r_disabled r; r_out := r_out r |} in
                     bindL (run_gen f cur b0 L sub)
                       (fun rb L1 =>
-                         k (set_extends (set_out r (r_out (fst rb))) (r_extends (fst rb)),
-                            snd rb) L1)
+                         let s1 := fst rb in
+                         k ({| r_locals := r_locals r; r_globals := r_globals r; r_root := r_root r;
+                               r_counters := r_counters s1; r_cycles := r_cycles s1; r_stop := r_stop s1;
+                               r_macros := r_macros s1; r_extends := r_extends s1;
+                               r_disabled := r_disabled r; r_out := r_out s1 |}, snd rb) L1)
                 end
           | _ => bindL (simple_op X o r, L) (fun r1 L1 => k (r1, false) L1)
           end
